@@ -2,9 +2,11 @@
    Decided partially (DESIGN §4 C01): the panic-site inventory is regenerated
    from the current source and every site is accounted for; the literal actions
    and split_string are proved total for all tokens / all valid UTF-8 strings;
-   totality of the pipeline is assembled from the per-stage facts, which are
-   premises of [C01_pipeline_total] (discharged by the cited theorems of the
-   other properties where they exist, observed otherwise).
+   the stages that have mirrors (include resolution, desugaring, lifting, dominator
+   tree, SSA construction, propagation) are chained in Model.PipelineMirrors and
+   [C01_pipeline_mirrors_never_panic] composes their totality theorems, with the
+   bridges between them proved; the remaining stages are premises of the generic
+   [C01_pipeline_total].
    Property theorems only: each is closed by [exact] of a lemma, followed by
    Print Assumptions. *)
 From Coq Require Import ZArith List Bool String.
@@ -13,7 +15,11 @@ Require Import Gen.PanicSites Gen.PanicMap.
 (* developments of other properties that C01 builds on, by qualified name only
    (std++ notations are not imported here) *)
 Require Model.Lift Spec.CfgSpec Proofs.LiftTotalFlat Proofs.LiftEdges Model.Includes Proofs.IncludesNoPanic.
-Require Model.Ir Model.Ssa Proofs.SsaNoPanic.
+Require Model.Ir Model.Ssa Proofs.SsaNoPanic Proofs.SsaFuel.
+(* the chain of the actual mirrors (Model.PipelineMirrors) and its bridges *)
+Require Model.Ast Model.Desugar Model.Dom Model.Propagate Model.Justify Model.Clean Spec.ExpandSpec Spec.DomSpec.
+Require Model.PipelineMirrors Proofs.PipelineMirrorsProofs Proofs.MirrorsShape Proofs.MirrorsAdapter Proofs.MirrorsDom
+        Proofs.MirrorsExample.
 Import ListNotations.
 Local Open Scope Z_scope.
 
@@ -25,9 +31,11 @@ Theorem C01_every_panic_site_discharged :
 Proof. exact every_panic_site_discharged. Qed.
 Print Assumptions C01_every_panic_site_discharged.
 
-Theorem C01_every_map_entry_justified : forallb justified panic_map = true.
-Proof. exact every_map_entry_justified. Qed.
-Print Assumptions C01_every_map_entry_justified.
+(* (the former obligation C01_every_map_entry_justified -- every disposition string is
+   non-empty -- said nothing and was removed: the citations of the map are now resolved
+   by Coq itself, `Check Props.Cnn.<name>.` for every cited theorem in the generated
+   file coq/gen/PanicCites.v, which ./check C01 compiles after this file; the guards are
+   re-validated against the current source by lib/panicsites.py on every run) *)
 
 Theorem C01_no_anchored_file_missing : anchored_files_missing = [].
 Proof. exact no_anchored_file_missing. Qed.
@@ -152,6 +160,38 @@ Theorem C01_into_ssa_never_panics :
 Proof. exact Proofs.SsaNoPanic.into_ssa_never_panics_tree. Qed.
 Print Assumptions C01_into_ssa_never_panics.
 
+(* ... and the fuel of the mirror suffices, so SFuel is not an outcome either (in
+   particular it cannot mask a later SPanic).  Work list (insert_phi_statements):
+   fuel n*n*(D+1)+n+1 for n blocks and D declarations; the measure
+   |work list| + number of (block, declared name) pairs without a phi statement is at
+   most n + n*D at the start, a pop costs one unit of fuel and lowers it by one, and
+   every push is paid for by a phi statement inserted for a declared, unversioned
+   name into a block that had none.  Tree walk: fuel n+1; a child has a larger index
+   than its parent and is a block, so the depth below block cur is at most n - cur.
+   One more hypothesis is needed: every local that is assigned is among the
+   declarations of the definition ([written_declared], decidable) ... *)
+Theorem C01_into_ssa_fuel_suffices :
+  forall (frontier children : list (list N)) (c : Model.Ir.cfg),
+    Proofs.SsaNoPanic.unversioned c -> Proofs.SsaFuel.written_declared c = true ->
+    (0 < List.length (Model.Ir.c_blocks c))%nat ->
+    (forall j k, In k (Proofs.SsaNoPanic.kids children j) -> (j < k)%nat /\ (k < List.length (Model.Ir.c_blocks c))%nat) ->
+    Model.Ssa.into_ssa frontier children c <> Model.Ssa.SFuel.
+Proof. exact Proofs.SsaFuel.into_ssa_never_out_of_fuel. Qed.
+Print Assumptions C01_into_ssa_fuel_suffices.
+
+(* ... and it cannot be dropped: a single block that is its own dominance frontier and
+   assigns three undeclared locals meets every other hypothesis and the work list of the
+   mirror runs out of its fuel 1*1*(0+1)+1+1 = 3 (the fuel of Model.Ssa is a bound for
+   well-formed graphs only) *)
+Theorem C01_into_ssa_fuel_needs_declared :
+  Proofs.SsaNoPanic.unversioned Proofs.SsaFuel.fx_graph /\
+  Proofs.SsaFuel.written_declared Proofs.SsaFuel.fx_graph = false /\
+  (forall j k, In k (Proofs.SsaNoPanic.kids [[]] j) ->
+               (j < k)%nat /\ (k < List.length (Model.Ir.c_blocks Proofs.SsaFuel.fx_graph))%nat) /\
+  Model.Ssa.into_ssa [[0%N]] [[]] Proofs.SsaFuel.fx_graph = Model.Ssa.SFuel.
+Proof. exact Proofs.SsaFuel.fuel_needs_declared. Qed.
+Print Assumptions C01_into_ssa_fuel_needs_declared.
+
 (* `2 + edges - nodes` of definition_complexity.rs cannot underflow: a lifted graph
    has at least (number of blocks - 1) entries in its successor lists, because every
    block but the entry is reachable (C12_all_reachable) and so is the target of an edge *)
@@ -161,39 +201,207 @@ Theorem C01_complexity_does_not_underflow : forall (body : Model.Lift.sk) (g : l
 Proof. exact Proofs.LiftEdges.complexity_does_not_underflow. Qed.
 Print Assumptions C01_complexity_does_not_underflow.
 
-(* the assembly: if no stage panics or runs out of fuel (an Err is allowed: it
-   becomes a report and the run continues) and the output stage ends with exit
-   status 0 or 1, the pipeline ends with exit status 0 or 1 for every command
-   line. The premises are named after what discharges them for the mirrors:
-     files      C01_includes_never_panic (no Panic, both `expect`s) +
-                C19_include_terminates, C19_run_project_fuel_ok (no OutOfFuel)
+(* ------------------------------------------------------------------------ *)
+(* THE CHAIN OF THE ACTUAL MIRRORS (Model.PipelineMirrors)                    *)
+(*                                                                            *)
+(*   Model.Includes.parse_files -> [parse: the LALRPOP parser, a parameter]   *)
+(*   -> per template Model.Desugar.desugar_template / per function            *)
+(*      check_function -> adapter skel/table -> Model.Lift.lift               *)
+(*   -> [ir_stmt, ir_cond, ir_head: IR lifting of a leaf, parameters]         *)
+(*   -> adapter ir_of_lift -> Model.Dom.dominator_tree -> Model.Ssa.into_ssa  *)
+(*   -> Model.Propagate.propagate                                             *)
+(*                                                                            *)
+(* The analysis passes and the output stage are not part of the chain (they   *)
+(* remain premises of C01_pipeline_total below).                              *)
+(* ------------------------------------------------------------------------ *)
+
+(* BRIDGE desugar -> lift.  The body that the desugarer hands on has the shape that
+   C01_lift_never_panics_on_desugared_shape asks for, whenever the initialisation blocks
+   of the parsed body hold declarations and (multi-)substitutions only ([ast_init_ok],
+   decidable).  Proved through C18_desugar_refines_expand: the answer of the two passes
+   is the specified expansion, which keeps that shape. *)
+Theorem C01_desugar_output_has_desugared_shape :
+  forall (lib : list (list N)) (ts : list (string * Model.Ast.statement)) (m : Model.Ast.meta)
+         (l : list Model.Ast.statement) (body' : Model.Ast.statement),
+    Forall Spec.ExpandSpec.wf_node (Spec.ExpandSpec.stmt_exprs (Model.Ast.Block m l)) ->
+    Forall Spec.ExpandSpec.short_node (Spec.ExpandSpec.sub_stmts (Model.Ast.Block m l)) ->
+    Model.PipelineMirrors.ast_init_ok (Model.Ast.Block m l) = true ->
+    Model.Desugar.desugar_template (Model.Desugar.env_of ts) lib (Model.Ast.Block m l) = Model.Desugar.DOk body' ->
+    Proofs.LiftTotalFlat.desugared_shape (Model.PipelineMirrors.skel body' 0).
+Proof. exact Proofs.MirrorsShape.desugar_output_shape. Qed.
+Print Assumptions C01_desugar_output_has_desugared_shape.
+
+(* BRIDGE lift -> IR graph.  The numbers [skel] gives to leaves and conditions are the
+   positions of [table], and the items of a lifted graph are the keys of its skeleton
+   (C12_every_item_exactly_once): every item finds its lifted statement, the adapter
+   never takes its model-only failure branch. *)
+Theorem C01_ir_adapter_total :
+  forall (ir_stmt : Model.Ast.statement -> option Model.Ir.stmt)
+         (ir_cond : Model.Ast.meta -> Model.Ast.expression -> option (Model.Ir.meta * Model.Ir.expr))
+         (body : Model.Ast.statement) (tbl : list Model.PipelineMirrors.irnode),
+    Model.PipelineMirrors.all_some
+      (map (Model.PipelineMirrors.ir_node ir_stmt ir_cond) (Model.PipelineMirrors.table body)) = Some tbl ->
+    forall g : list Model.Lift.block,
+      Model.Lift.lift (Model.PipelineMirrors.skel body 0) = Ok g ->
+      forall h : Model.PipelineMirrors.definition_head,
+      exists c : Model.Ir.cfg, Model.PipelineMirrors.ir_of_lift h tbl g = Some c.
+Proof. exact Proofs.MirrorsAdapter.ir_of_lift_total. Qed.
+Print Assumptions C01_ir_adapter_total.
+
+(* BRIDGE lift -> dominator tree.  The predecessor / successor lists of a lifted graph
+   form a rooted graph (C12_entry_no_pred, C12_preds_succs_mirror, C12_all_reachable), so
+   DominatorTree::new returns (C15_no_panic) ... *)
+Theorem C01_lifted_graph_is_rooted : forall (body : Model.Lift.sk) (g : list Model.Lift.block),
+  Model.Lift.lift body = Ok g -> Spec.DomSpec.rooted (Proofs.MirrorsDom.to_dom g).
+Proof. exact Proofs.MirrorsDom.lifted_rooted. Qed.
+Print Assumptions C01_lifted_graph_is_rooted.
+
+(* BRIDGE dominator tree -> SSA.  ... and the children sets of the tree, enumerated in
+   any order, satisfy the three order facts that C01_into_ssa_never_panics and
+   C01_into_ssa_fuel_suffices ask for: this is the translation from C15's bit-mask
+   statements (the invariant of idom_loop, C15_idom_unique) and C12_dom_implies_le into
+   the list form, which used to be prose. *)
+Theorem C01_lifted_children_order_facts :
+  forall (body : Model.Lift.sk) (g : list Model.Lift.block),
+    Model.Lift.lift body = Ok g ->
+    forall ord : nat -> list nat -> list nat, Spec.DomSpec.order_ok ord ->
+    forall t : Model.Dom.dom_tree,
+      Model.Dom.dominator_tree (Model.Dom.dom_fuel (Proofs.MirrorsDom.to_dom g)) ord (Proofs.MirrorsDom.to_dom g) = Ok t ->
+      forall horder : list nat -> list nat, (forall l, Permutation.Permutation (horder l) l) ->
+      let children := Model.PipelineMirrors.sets_of horder (Model.Dom.dt_children t) in
+      (forall j k, In k (Proofs.SsaNoPanic.kids children j) -> (j < k < List.length g)%nat) /\
+      (forall j, NoDup (Proofs.SsaNoPanic.kids children j)) /\
+      (forall j j' k, In k (Proofs.SsaNoPanic.kids children j) -> In k (Proofs.SsaNoPanic.kids children j') -> j = j').
+Proof. exact Proofs.MirrorsDom.lifted_children_facts. Qed.
+Print Assumptions C01_lifted_children_order_facts.
+
+(* THE COMPOSITION.  For every file system in which a canonical non-directory path has a
+   file name, every command line, every hash order, every prime and every pair of pass
+   budgets: if the program the parser returns meets [program_ok], then the chain ends with
+   a list of per-definition outcomes each of which is a graph handed to the analysis
+   passes (DROk) or an error report (DRReport) -- never DRPanic, never DRFuel -- or with
+   an error of the file stage; it does not end with Panic, and the only way to end with
+   OutOfFuel is the fuel of the include loop (excluded by C19_include_terminates under
+   its own hypotheses).
+   Proofs.PipelineMirrorsProofs.program_ok spells out what REMAINS A HYPOTHESIS, all of it
+   decidable on the concrete program:
+     per template  wf_template (C18: metas belong to a file of the library, log strings
+                   <= 230 bytes, named inputs one per argument, the body is a block);
+                   ast_init_ok (initialisation blocks hold declarations and
+                   (multi-)substitutions);
+     per function  metas known, the body is a block, ast_init_ok;
+     per desugared body, about the two unmirrored stages:
+       lifted_ok      the IR statements of the leaves carry no version and assign only
+                      declared locals (IR lifting is not mirrored);
+       ssa_output_ok  the graph into_ssa returns carries no value claim and has one
+                      defining assignment per local -- the two hypotheses of
+                      C20_propagate_completes; C14_unique_defs states the second for
+                      graphs C14's validator accepts, it is not proved for the
+                      construction mirror itself.
+   Proved, not assumed: the desugarer does not crash (C18), its output has the shape lifting
+   accepts, lifting returns a graph (C12 + C01_lift_...), the adapter is total, the
+   dominator tree is computed (C15) and its children lists are a tree with growing
+   indices, into_ssa returns SOk or the `used before defined` error (no SPanic, no SFuel),
+   propagation completes at every budget (C20). *)
+Theorem C01_pipeline_mirrors_never_panic :
+  forall (ir_stmt : Model.Ast.statement -> option Model.Ir.stmt)
+         (ir_cond : Model.Ast.meta -> Model.Ast.expression -> option (Model.Ir.meta * Model.Ir.expr))
+         (ir_head : string -> Model.Ast.statement -> Model.PipelineMirrors.definition_head)
+         (ord : nat -> list nat -> list nat) (horder : list nat -> list nat) (p : Z) (kv kd : nat),
+    Spec.DomSpec.order_ok ord ->
+    (forall l : list nat, Permutation.Permutation (horder l) l) ->
+    Znumtheory.prime p -> 2 < p -> Z.log2 p < 2 ^ 64 ->
+    forall (path : Type) (EqDecision0 : stdpp.base.EqDecision path)
+           (canon : path -> option path) (is_dir is_file : path -> bool)
+           (read_dir : path -> option (list path)) (join : path -> path -> path)
+           (parent : path -> path) (file_name : path -> option path)
+           (ext_circom starts_dot has_sep : path -> bool)
+           (content : path -> Model.Includes.file_content path)
+           (parse : Model.Includes.parse_state -> Model.PipelineMirrors.program),
+      (forall q c, is_dir q = false -> canon q = Some c -> file_name c <> None) ->
+      forall (d23 : bool) (dfuel fuel : nat) (paths libs : list path),
+        (forall st, Model.Includes.parse_files canon is_dir is_file read_dir join parent file_name ext_circom
+                                               starts_dot has_sep content d23 dfuel fuel paths libs = Ok st ->
+                    Proofs.PipelineMirrorsProofs.program_ok ir_stmt ir_cond ir_head ord horder (parse st)) ->
+        match Model.PipelineMirrors.run_pipeline_mirrors ir_stmt ir_cond ir_head ord horder p kv kd canon is_dir is_file
+                read_dir join parent file_name ext_circom starts_dot has_sep content parse d23 dfuel fuel paths libs with
+        | Ok ds => Forall Proofs.PipelineMirrorsProofs.fine ds
+        | Err _ => True
+        | Panic _ => False
+        | OutOfFuel => Model.Includes.parse_files canon is_dir is_file read_dir join parent file_name ext_circom
+                                                  starts_dot has_sep content d23 dfuel fuel paths libs = OutOfFuel
+        end.
+Proof. exact @Proofs.PipelineMirrorsProofs.run_pipeline_mirrors_never_panics. Qed.
+Print Assumptions C01_pipeline_mirrors_never_panic.
+
+(* the hypotheses of the composition are satisfiable and the chain computes: the template
+     template T() { var x = 0; while (x < 3) { x = x + 1; } }
+   with a sample instantiation of the unmirrored stages (Proofs.MirrorsExample: an IR
+   lifting for declarations, assignments to variables and arithmetic) meets program_ok,
+   the identity orders are orders, 3 is a prime, and the chain ends with DROk on an SSA
+   graph that has a two-argument phi statement at the loop header *)
+Example C01_pipeline_mirrors_example :
+  Proofs.PipelineMirrorsProofs.program_ok Proofs.MirrorsExample.ex_stmt Proofs.MirrorsExample.ex_cond
+    Proofs.MirrorsExample.ex_head Model.Dom.id_order (fun l => l) Proofs.MirrorsExample.ex_program /\
+  (Spec.DomSpec.order_ok Model.Dom.id_order /\ (forall l : list nat, Permutation.Permutation ((fun l => l) l) l)) /\
+  Znumtheory.prime 3 /\
+  match Proofs.MirrorsExample.ex_run with
+  | Ok [d] => Proofs.MirrorsExample.is_drok d && Proofs.MirrorsExample.has_phi_in_block_1 d
+  | _ => false
+  end = true.
+Proof.
+  exact (conj Proofs.MirrorsExample.ex_program_ok
+          (conj Proofs.MirrorsExample.ex_orders_ok (conj Znumtheory.prime_3 Proofs.MirrorsExample.ex_run_ok))).
+Qed.
+
+(* the hypotheses of C01_into_ssa_never_panics and C01_into_ssa_fuel_suffices are met by
+   the pre-SSA graph of that template (three blocks, a loop) with the children and
+   frontier lists that the dominator-tree mirror computes for it, and into_ssa returns a graph *)
+Example C01_into_ssa_example :
+  match Model.Dom.dominator_tree (Model.Dom.dom_fuel (Model.PipelineMirrors.dom_of_ir Proofs.MirrorsExample.ex_pre))
+          Model.Dom.id_order (Model.PipelineMirrors.dom_of_ir Proofs.MirrorsExample.ex_pre) with
+  | Ok t => Model.PipelineMirrors.sets_of (fun l => l) (Model.Dom.dt_children t) = Proofs.MirrorsExample.ex_children /\
+            Model.PipelineMirrors.sets_of (fun l => l) (Model.Dom.dt_frontier t) = Proofs.MirrorsExample.ex_frontier
+  | _ => False
+  end /\
+  Proofs.SsaNoPanic.unversioned Proofs.MirrorsExample.ex_pre /\
+  Proofs.SsaFuel.written_declared Proofs.MirrorsExample.ex_pre = true /\
+  (0 < List.length (Model.Ir.c_blocks Proofs.MirrorsExample.ex_pre))%nat /\
+  (forall j k, In k (Proofs.SsaNoPanic.kids Proofs.MirrorsExample.ex_children j) ->
+               (j < k)%nat /\ (k < List.length (Model.Ir.c_blocks Proofs.MirrorsExample.ex_pre))%nat) /\
+  (forall j, NoDup (Proofs.SsaNoPanic.kids Proofs.MirrorsExample.ex_children j)) /\
+  (forall j j' k, In k (Proofs.SsaNoPanic.kids Proofs.MirrorsExample.ex_children j) ->
+                  In k (Proofs.SsaNoPanic.kids Proofs.MirrorsExample.ex_children j') -> j = j') /\
+  exists c1, Model.Ssa.into_ssa Proofs.MirrorsExample.ex_frontier Proofs.MirrorsExample.ex_children
+                                Proofs.MirrorsExample.ex_pre = Model.Ssa.SOk c1.
+Proof. exact (conj Proofs.MirrorsExample.ex_tree_is_computed Proofs.MirrorsExample.ex_pre_hypotheses). Qed.
+
+(* the hypothesis of C01_includes_never_panic is met by the file system of C19's example
+   (a main file including one library file under two spellings, a directory library on
+   the command line): every canonical path of the table has a file name -- decided by
+   Proofs.MirrorsExample.canon_named_b -- and the run reads both files *)
+Example C01_includes_example :
+  (forall q c, Model.Includes.d_is_dir Proofs.IncludesProofs.d23_fs q = false ->
+               Model.Includes.d_canon Proofs.IncludesProofs.d23_fs q = Some c -> Model.Includes.s_file_name c <> None) /\
+  exists s, Model.Includes.run_project false Proofs.IncludesProofs.d23_fs Proofs.IncludesProofs.d23_argv
+                                       Proofs.IncludesProofs.d23_libs = Ok s /\
+            List.length (Model.Includes.ps_read s) = 2%nat.
+Proof. exact Proofs.MirrorsExample.ex_fs_hypothesis. Qed.
+
+(* the generic assembly over ABSTRACT stage functions, kept for the stages that are not
+   part of the chain of mirrors above (the parser, the analysis passes, the output
+   stage): if no stage panics or runs out of fuel (an Err is allowed: it becomes a report
+   and the run continues) and the output stage ends with exit status 0 or 1, the pipeline
+   ends with exit status 0 or 1 for every command line.  For the stages files, desugar,
+   lift, ssa and propagate the premises are no longer backed by a comment: they are
+   instantiated with the mirrors and discharged by theorems in
+   C01_pipeline_mirrors_never_panic.  What backs the remaining premises:
      parse      C05_preprocess_total, the action theorems above (C01_decnumber_,
                 hexnumber_, string_action_total, C01_version_action_never_panics);
                 build_log_call -> C01_split_string_never_panics; the LALRPOP
                 automaton and lexer are observed
-     desugar    C18_desugar_never_panics: remove_syntactic_sugar as a whole returns
-                DOk on parser output (wf_template: metas belong to a file of the
-                library, log strings <= 230 bytes -- which is the chunk bound of
-                C01_split_string_never_panics --, named inputs one per argument,
-                bodies are blocks); C18_desugar_output_sugar_free +
-                C18_functions_with_sugar_rejected keep the catch-all panic!s of IR
-                lifting unreachable
-     lift       C10_pass_never_panics (renaming; environment.rs asserts),
-                C10_renaming_injective_on_declarations (Declarations::add_declaration),
-                C01_lift_never_panics_on_desugared_shape (extends C12_lift_never_panics);
-                that the desugared body has this shape follows from the grammar and
-                the two rewriting arms of the desugarer and is observed (C12/C13
-                correspondence on the real into_cfg)
-     ssa        C15_no_panic, C15_dom_fuel_suffices (DominatorTree::new on a rooted
-                graph; C12_all_reachable: every lifted graph is rooted);
-                C01_into_ssa_never_panics (no assert!/expect of the construction);
-                termination of the work list and of the tree walk (SFuel of the
-                mirror) is observed; the output is validated by C14
-     propagate  C16_field_never_panics, C16_egcd_total, C16_shift_bounded_work (field
-                operations); C14_unique_defs + fix 79353f9 (add_variable's
-                assert_eq!); C20_propagate_validated_at_every_budget covers every
-                cut of the time-boxed loop but is conditional on the mirror
-                returning Ok: absence of Panic in the loop is observed
+     lift       (the renaming before lifting) C10_pass_never_panics,
+                C10_renaming_injective_on_declarations; IR lifting of the leaves is observed
      passes     C12_branch_only_last, C12_branch_targets_exist_and_are_succs,
                 C12_preds_succs_mirror, C15_*_exact (the cfg.rs accessors the taint
                 analysis uses), C09_taint_fuel_suffices, C11_*_reports_exact,
